@@ -9,6 +9,14 @@ P = "preflate_rs::"
 FILES = ("src/scan_deflate.rs", "src/idat_parse.rs")
 
 
+def _home(name, b):
+    """The source file a function belongs to for scoping purposes: the one its (canonical) definition path names, so that a
+    function moved to another module — and given its reference path back by Facts — stays in scope."""
+    m = re.match(r"^(?:<)?preflate_rs::([a-z_0-9]+)::", name)
+    f = "src/%s.rs" % m.group(1) if m else None
+    return f if f in FILES + READER_FILES else b.file
+
+
 def summaries(F, name, b, L):
     """Named summary facts for one function: list of (location, form >= 0, text, obligation-ok, obligation-detail)."""
     out = []
@@ -123,7 +131,7 @@ def a5(ctx, rep):
     nsites = 0
     per_fn = {}
     for name, b in sorted(F.bodies.items()):
-        if b.file not in FILES:
+        if _home(name, b) not in FILES:
             continue
         try:
             L, sites, facts, inn, out = lin.sites_and_facts(F, b)
@@ -291,7 +299,7 @@ def x5(ctx, rep, rule="X5"):
     n = n_known = 0
     for dn in _analysis_defs(F):
         b = F.bodies[dn]
-        if b.file in READER_FILES:
+        if _home(dn, b) in READER_FILES:
             continue
         short = dn.replace(P, "")
         try:
@@ -335,7 +343,7 @@ def x4(ctx, rep, rule="X4"):
     n = n_rev = 0
     used_rows, pending = set(), []
     for name, b in sorted(F.bodies.items()):
-        if b.file not in READER_FILES:
+        if _home(name, b) not in READER_FILES:
             continue
         short = name.replace(P, "")
         try:
